@@ -17,13 +17,23 @@ ORACLE_DOC = ('on the real boundary traces around every group_by: per parent key
 KNOWN_MATCHERS = {}
 _site_oracle = make_oracle(('group_by',))
 
-KEYS = [['mod', 2], ['mod', 3], ['mod', 5], ['key_of'], ['str_of'], ['big_of'], ['is_even'], ['const', 7], ['id'], ['floordiv', 4]]
+KEYS = [['mod', 2], ['mod', 3], ['mod', 5], ['key_of'], ['str_of'], ['big_of'], ['is_even'], ['const', 7], ['id'], ['floordiv', 4],
+        ['none_if_mod', 2, 0], ['none_if_mod', 3, 1], ['const', None]]      # None is a legal group key
 
 
 def _oracle(case, r):
     v = _site_oracle(case, r)
     if v:
         return v
+    # results of groups are emitted while their parent key is live: on every boundary of the pipeline the protocol holds
+    # (a group result that leaves group_by after the parent's completion would be an item for a key that is not live)
+    if case['kind'] == 'mux' and not r.get('raised') and not muxprop.has_fatal(r['chunks']):
+        for lab, tr in sorted((r.get('bounds') or {}).items()):
+            if any(e[0] in ('e', 'x') for e in tr):
+                continue
+            w = muxprop.wf_monitor(tr)
+            if w:
+                return 'at the boundary %s of %s: %s' % (lab, muxprop.json.dumps(case['term'])[:200], w)
     t = case['term']
     if case['kind'] == 'mux' and len(t) == 1 and t[0][0] == 'group_by' and t[0][2] == [['to_list']] and not r.get('raised') and not muxprop.has_fatal(r['chunks']):
         f = fn1(t[0][1])
@@ -48,6 +58,12 @@ def _cases(tier, rng):
     yield {'kind': 'mux', 'term': [['group_by', ['big_of'], [['count', True]]]], 'items': [5, 7, 5, 7, 9]}
     yield {'kind': 'mux', 'term': [['group_by', ['mod', 2], [['group_by', ['mod', 3], [['to_list']]]]]], 'items': list(range(12))}
     yield {'kind': 'mux', 'term': [['group_by', ['key_of'], [['to_list']]]], 'items': []}
+    # a group whose key is None, with groups that first appear before and after it, all open when the parent completes
+    yield {'kind': 'mux', 'term': [['group_by', ['none_if_mod', 3, 1], [['to_list']]]], 'items': [3, 1, 2, 4, 5, 3]}
+    yield {'kind': 'mux', 'term': [['split', ['floordiv', 4], [['group_by', ['none_if_mod', 2, 0], [['count', True]]]]]], 'items': [1, 2, 3, 4, 5, 6, 7]}
+    # a stateful operator after group_by inside the same parent: it must see the group results before the parent's completion
+    yield {'kind': 'mux', 'term': [['group_by', ['mod', 2], [['to_list']]], ['count', True]], 'items': [1, 2, 3, 4, 5]}
+    yield {'kind': 'mux', 'term': [['split', ['floordiv', 3], [['group_by', ['mod', 2], [['to_list']]], ['to_list']]]], 'items': [0, 1, 2, 3, 4, 5, 6]}
     # key values that are different but have equal hashes in CPython (hash(-1) == hash(-2); ints are hashed modulo 2**61-1;
     # 0, 0.0-free: only ints here), alone and inside tuples: one group per distinct key VALUE
     COLL = [-1, -2, 0, 2 ** 61 - 1, 2 ** 61, 1, 2 ** 62 - 2, -(2 ** 61)]
